@@ -1,6 +1,6 @@
 CONSTANTS Graphs = {"line", "selfl", "dead"} T = 3 QE = {0, 1, 2, 3} QN = {0, 1, 2} NodeModes = {TRUE, FALSE} NEs = {TRUE, FALSE}
   Widths = {0, 1, 2} Cuts = {"none", "dist", "prob"} MaxOps = 3 SAMPLE = 1 Moves = {"m11"} EMIT = TRUE
-  ExhGraphs = {} Debugs = {FALSE}
+  ExhGraphs = {} Debugs = {FALSE} REUSE = FALSE
 SPECIFICATION Spec
 INVARIANT EmitBehaviour
 CHECK_DEADLOCK FALSE
